@@ -12,10 +12,10 @@ Definition C06_full_statement : Prop :=
 (* Final: once a command's abort flag is seen, it stays seen through every runtime step of every
    command (settle / poll_next on any command id), for every fuel and heap ... *)
 Theorem C06_abort_permanent_settle : forall fuel cid' cid H H',
-  cid < length (cmds H) -> settle fuel cid' H = Some H' -> was_aborted cid H' = was_aborted cid H.
+  cid < length (cmds H) -> settle fuel cid' H = Some H' -> was_aborted cid H = true -> was_aborted cid H' = true.
 Proof. exact abort_permanent_settle. Qed.
 Theorem C06_abort_permanent_poll_next : forall fuel cid' w cid H r H',
-  cid < length (cmds H) -> poll_next fuel cid' w H = Some (r, H') -> was_aborted cid H' = was_aborted cid H.
+  cid < length (cmds H) -> poll_next fuel cid' w H = Some (r, H') -> was_aborted cid H = true -> was_aborted cid H' = true.
 Proof. exact abort_permanent_poll_next. Qed.
 (* ... and through further aborts *)
 Theorem C06_abort_permanent_abort : forall n cid H, was_aborted cid H = true -> was_aborted cid (add_aborted n H) = true.
